@@ -490,6 +490,9 @@ def random_scenario(rnd, tz_mix=False, earn=True, schedule=False, windows=False,
             q = Fr(int(q * 10 ** 11), 10 ** 11)
             if q <= 0:
                 continue
+            if strict_balances and rnd.random() < 0.3:
+                # overdraw the account by a little or a lot (C08: dust must be tolerated, anything beyond 1e-10 rejected)
+                q = avail + Fr(rnd.choice(["0.00000000001", "0.00000000004", "0.000000001", "0.00001", "0.003", "1"]))
             typ = rnd.choice(["sell", "sell", "gift", "donate", "fee", "lost", "staking"])
             fee = Fr(0)
             if typ == "fee":
@@ -513,6 +516,8 @@ def random_scenario(rnd, tz_mix=False, earn=True, schedule=False, windows=False,
             q = Fr(int(q * 10 ** 11), 10 ** 11)
             if q <= 0:
                 continue
+            if strict_balances and rnd.random() < 0.3:
+                q = held[acct] + Fr(rnd.choice(["0.00000000001", "0.00000000004", "0.000000001", "0.00001", "0.003", "1"]))
             fee = rnd.choice([Fr(0), Fr(0), min(q / 20, Fr(1, 1000)), Fr(1, 10 ** 8)])
             fee = min(Fr(int(fee * 10 ** 11), 10 ** 11), q)
             tx = {"tab": "INTRA", "ts": ts, "ex": acct[0], "ho": acct[1], "to_ex": dst[0], "to_ho": dst[1], "spot": rnd.choice(PRICES[:6]), "amount": dec(q),
@@ -611,6 +616,17 @@ def curated():
     out.append({"txs": [IN("2020-01-01T00:00:00+00:00", "0.33333333333", "10", 2), IN("2020-01-02T00:00:00+00:00", "0.33333333333", "10", 3),
                         IN("2020-01-03T00:00:00+00:00", "0.33333333334", "10", 4), OUT("2020-01-05T00:00:00+00:00", "1", "10", 5),
                         IN("2020-01-05T00:00:00+00:00", "1", "10", 6), OUT("2020-01-05T00:00:00+00:00", "1", "10", 7)],
+                "schedule": {"1970": "fifo"}, "allow_negative": False})
+    # overdrafts: through a transfer only; by 0.004 (must be rejected); by 4e-11 (dust: the statement leaves it open, 0 is never rejected)
+    out.append({"txs": [IN("2020-01-01T00:00:00+00:00", "1", "10", 2, acct=B), IN("2020-01-01T00:00:00+00:00", "5", "10", 3, acct=K),
+                        MOVE("2020-01-05T00:00:00+00:00", "1.5", "1.5", "10", 4, src=B, dst=K)], "schedule": {"1970": "fifo"}, "allow_negative": False})
+    out.append({"txs": [IN("2020-01-01T00:00:00+00:00", "1", "10", 2, acct=B), IN("2020-01-01T00:00:00+00:00", "5", "10", 3, acct=K),
+                        OUT("2020-01-05T00:00:00+00:00", "1.004", "10", 4, acct=B)], "schedule": {"1970": "fifo"}, "allow_negative": False})
+    out.append({"txs": [IN("2020-01-01T00:00:00+00:00", "1", "10", 2, acct=B), IN("2020-01-01T00:00:00+00:00", "5", "10", 3, acct=K),
+                        MOVE("2020-01-05T00:00:00+00:00", "1.0000003", "1", "10", 4, src=B, dst=K), IN("2020-01-06T00:00:00+00:00", "1", "10", 5, acct=B)],
+                "schedule": {"1970": "fifo"}, "allow_negative": False})
+    out.append({"txs": [IN("2020-01-01T00:00:00+00:00", "1", "10", 2, acct=B), OUT("2020-01-05T00:00:00+00:00", "1", "10", 3, acct=B),
+                        IN("2020-01-06T00:00:00+00:00", "1", "10", 4, acct=B), OUT("2020-01-07T00:00:00+00:00", "1", "10", 5, acct=B)],
                 "schedule": {"1970": "fifo"}, "allow_negative": False})
     # same-instant buy + sell on one account; mixed offsets near the window bounds
     out.append({"txs": [IN("2020-12-31T21:30:00-05:00", "1", "10", 2), OUT("2021-01-01T03:00:00+00:00", "0.4", "20", 3), IN("2021-01-01T12:00:00+09:00", "1", "30", 4),
